@@ -72,6 +72,21 @@ CHECKS = {
              "exactly one previously unknown explorable coalition of the requested size became known and is reported, the step is an inner step of an allowed action, "
              "reward/done are the inner environment's, mask and observation are the per-size aggregation (length n) after reset and every step.",
         note="tie-breaks of the real wrapper are sampled (numpy global RNG), all candidates are covered in the model"),
+    "C05": dict(
+        level="model_checking", design="§5 C05", technique="TLC on MC_Shapley: identity on a basis of the linear input space, domination on all corners of small boxes; trace validation of compute_exploitability with certified integer numerators",
+        text="Both sides of 'exploitability = summed best-case Shapley gain = binomially weighted gap' are linear in (lower, upper); TLC checks the identity on every unit "
+             "bound vector for n=2..6 (quick) / 2..8 (thorough), and non-negativity, zero-iff-degenerate and per-player domination on every box of a {0,1} lattice (all corners) "
+             "for n=2,3; the real compute_exploitability is evaluated on all unit vectors (n<=6/8), random integer/dyadic/negative/inverted vectors and integer combinations, "
+             "and its float result, bound by a certified integer interval of n!*scale*value, must contain the specification's two closed forms; completions inside boxes are "
+             "run through the real Shapley code and compared with the per-player maxima.",
+        note="basis enumeration instead of a computer-algebra proof; identity asserted only with empty coalition at 0 and grand coalition known"),
+    "C06": dict(
+        level="model_checking", design="§5 C06", technique="TLC on MC_Shapley: weighted form vs the n! orderings on all unit games (n<=7), efficiency/symmetry/null-player to n=10; trace validation of both real entry points",
+        text="TLC checks the code's weighted-sum form against the average marginal contribution over all n! orderings on every unit game for n=2..5 (quick) / 2..7 (thorough) "
+             "and on all games with values in {0,1,2} for n=3, plus efficiency, symmetry under transpositions and the null-player law up to n=8 (10 thorough); "
+             "compute_shapley_value and compute_shapley_value_for_player are run on all unit games (n<=7/10) and random integer, dyadic, negative, null-player, relabelled and "
+             "combined games, and their results (certified integer intervals of n!*scale*value) must contain the specification's ordering average; both entry points must agree bit for bit.",
+        note="linearity argument instead of a symbolic proof; orderings enumerated up to n=6 on recorded results, weighted form beyond"),
 }
 
 NOT_YET = "check not built yet (build in progress; see DESIGN.md §5 for the plan)"
